@@ -34,6 +34,29 @@ func (e *Env) evalConversion(call *ast.CallExpr, st *State) Value {
 	from := e.Info.TypeOf(call.Args[0])
 	v := e.eval(call.Args[0], st)
 	v = e.adapt(v, to)
+	if c.AbsKeys {
+		switch k := v.(type) {
+		case *IKeyV:
+			if isInternalKeyType(to) {
+				return k
+			}
+			if isByteSlice(to) {
+				panic(outOfReach("internal key used as raw bytes at " + c.W.relPos(call.Pos())))
+			}
+		case *KeyV:
+			if isInternalKeyType(to) {
+				// raw bytes reinterpreted as an internal key: an unknown internal key
+				nv, facts := c.freshValue(to, "ikconv")
+				for _, f := range facts {
+					st.assume(f)
+				}
+				nik := nv.(*IKeyV)
+				nik.U.Nil = k.Nil
+				return nik
+			}
+			return k
+		}
+	}
 	if isIntType(to) && isIntType(from) {
 		if t, ok := v.(*Term); ok {
 			return c.convert(t, from, to)
@@ -69,6 +92,9 @@ func (e *Env) evalConversion(call *ast.CallExpr, st *State) Value {
 
 func (e *Env) evalBuiltin(name string, call *ast.CallExpr, st *State) Value {
 	c := e.C
+	if v, ok := e.absBuiltin(name, call, st); ok {
+		return v
+	}
 	switch name {
 	case "len", "cap":
 		at := e.Info.TypeOf(call.Args[0])
@@ -362,7 +388,10 @@ func (e *Env) resolveCallee(call *ast.CallExpr, st *State) callee {
 func (e *Env) evalCallWith(call *ast.CallExpr, st *State, args []Value) Value {
 	if (e.Top || e.litOfTop()) && !st.dead {
 		if ord, ok := e.C.callOrd[call.Pos()]; ok && e.C.Contract != nil && len(e.C.Contract.Ats) > 0 {
+			saved := e.C.specAt
+			e.C.specAt = call.Pos()
 			e.C.runAts(e, st, "before call "+ord, nil)
+			e.C.specAt = saved
 		}
 	}
 	v := e.evalCallWith0(call, st, args)
@@ -376,15 +405,32 @@ func (e *Env) evalCallWith(call *ast.CallExpr, st *State, args []Value) Value {
 				name = extKey(cl.fn)
 			}
 			if name != "" {
+				// slot 0: number of calls; slot 1: logical time of the last call; slot 2: logical time of the last
+				// call that returned a nil error (or has no error result)
 				key := "G$calls." + name
 				arr := e.C.heapGet(st, key, SArr(SInt, SInt))
-				e.C.heapSet(st, key, Store(arr, IntC(0), IAdd(Select(arr, IntC(0)), IntC(1))))
+				clk := e.C.heapGet(st, clockKey, SArr(SInt, SInt))
+				now := IAdd(Select(clk, IntC(0)), IntC(1))
+				// logical times are never in the future
+				st.assume(And(IGe(Select(arr, IntC(2)), IntC(0)), ILe(Select(arr, IntC(2)), Select(arr, IntC(1))), ILe(Select(arr, IntC(1)), Select(clk, IntC(0)))))
+				e.C.heapSet(st, clockKey, Store(clk, IntC(0), now))
+				arr = Store(arr, IntC(0), IAdd(Select(arr, IntC(0)), IntC(1)))
+				arr = Store(arr, IntC(1), now)
+				ok := TTrue
+				if ev, isT := lastErrResult(v, cl.fn).(*Term); isT && ev != nil && ev.Sort == SInt {
+					ok = Eq(ev, IntC(0))
+				}
+				arr = Store(arr, IntC(2), Ite(ok, now, Select(arr, IntC(2))))
+				e.C.heapSet(st, key, arr)
 			}
 		}
 	}
 	if (e.Top || e.litOfTop()) && !st.dead {
 		if ord, ok := e.C.callOrd[call.Pos()]; ok && e.C.Contract != nil && len(e.C.Contract.Ats) > 0 {
+			saved := e.C.specAt
+			e.C.specAt = call.End()
 			e.C.runAts(e, st, "call "+ord, nil)
+			e.C.specAt = saved
 		}
 	}
 	return v
@@ -412,6 +458,15 @@ func (e *Env) evalCallWith0(call *ast.CallExpr, st *State, args []Value) Value {
 	} else if cl.recv != nil && !strings.HasPrefix(cl.full, "(*sync.") {
 		recvVal = e.eval(cl.recv, st)
 		recvVal = e.promoteRecv(call, recvVal, st)
+	}
+	// abstract keys
+	if v, handled := e.absCall(call, st, cl, recvVal, args); handled {
+		return v
+	}
+	if cl.full == "sort.Search" {
+		if v, handled := e.sortSearchModel(call, st, args); handled {
+			return v
+		}
 	}
 	// protocol layer (locks etc.)
 	if v, handled := c.protoCall(e, st, call, cl, recvVal, args); handled {
@@ -803,11 +858,62 @@ func (c *FCtx) havocForCall(e *Env, st *State, fn *types.Func, call *ast.CallExp
 
 // havocCounters forgets the event and call counters a callee may advance.
 func (c *FCtx) havocCounters(st *State, eff *Effects) {
+	var calls []string
 	for k := range eff.Locks {
 		if isCounterKey(k) {
 			st.heap[k] = c.freshVar(k, SArr(SInt, SInt))
+			if strings.HasPrefix(k, "G$calls.") {
+				calls = append(calls, k)
+			}
 		}
 	}
+	c.clockAfterHavoc(st, calls)
+}
+
+// clockAfterHavoc: the listed call counters were forgotten; logical time moved forward and the forgotten times of
+// last calls are not in the future.
+func (c *FCtx) clockAfterHavoc(st *State, keys []string) {
+	if len(keys) == 0 {
+		return
+	}
+	c.advanceClock(st)
+	clk := Select(c.heapGet(st, clockKey, SArr(SInt, SInt)), IntC(0))
+	for _, k := range keys {
+		if k == clockKey {
+			continue
+		}
+		arr := st.heap[k]
+		st.assume(And(IGe(Select(arr, IntC(2)), IntC(0)), ILe(Select(arr, IntC(2)), Select(arr, IntC(1))), ILe(Select(arr, IntC(1)), clk)))
+	}
+}
+
+const clockKey = "G$calls.$clock"
+
+// advanceClock: some counted calls may have happened; logical time only moves forward.
+func (c *FCtx) advanceClock(st *State) {
+	old := c.heapGet(st, clockKey, SArr(SInt, SInt))
+	n := c.freshVar(clockKey, SArr(SInt, SInt))
+	st.heap[clockKey] = n
+	st.assume(IGe(Select(n, IntC(0)), Select(old, IntC(0))))
+}
+
+// lastErrResult returns the error-typed last result of a call value, if the callee has one.
+func lastErrResult(v Value, fn *types.Func) Value {
+	sig, ok := fn.Type().(*types.Signature)
+	if !ok || sig.Results().Len() == 0 {
+		return nil
+	}
+	last := sig.Results().At(sig.Results().Len() - 1)
+	if !types.Identical(last.Type(), types.Universe.Lookup("error").Type()) {
+		return nil
+	}
+	if t, ok := v.(*TupleV); ok {
+		if len(t.Vs) == 0 {
+			return nil
+		}
+		return t.Vs[len(t.Vs)-1]
+	}
+	return v
 }
 
 // havocWriteSet forgets heap keys matching the write set (a key or any leaf below it), including keys this
